@@ -242,22 +242,24 @@ func (c cosine) CalculateBatch(queries [][]float32, target []float32) []float32 
 // Returns ErrZeroVector if the vector has zero magnitude.
 // Time complexity: O(n) where n is the vector dimension
 func (c cosine) PreprocessInPlace(target []float32) error {
-	// Compute norm
-	var sum float32
+	// Compute norm. The squares are accumulated in float64: in float32 the
+	// square of a component below ~1e-19 underflows (a non-zero vector would be
+	// rejected as a zero vector) and that of a component above ~1e19 overflows
+	// (the vector would be stored as all zeros).
+	var sum float64
 	for _, x := range target {
-		sum += x * x
+		sum += float64(x) * float64(x)
 	}
-	norm := float32(math.Sqrt(float64(sum)))
 
 	// Zero vectors are undefined for cosine similarity
-	if norm == 0 {
+	if sum == 0 {
 		return ErrZeroVector
 	}
 
 	// Normalize in-place
-	scale := 1.0 / norm
+	scale := 1.0 / math.Sqrt(sum)
 	for i := range target {
-		target[i] *= scale
+		target[i] = float32(float64(target[i]) * scale)
 	}
 
 	return nil
@@ -267,23 +269,22 @@ func (c cosine) PreprocessInPlace(target []float32) error {
 // Returns ErrZeroVector if the vector has zero magnitude.
 // Time complexity: O(n) where n is the vector dimension
 func (c cosine) Preprocess(target []float32) ([]float32, error) {
-	// Compute norm
-	var sum float32
+	// Compute norm (squares accumulated in float64, see PreprocessInPlace)
+	var sum float64
 	for _, x := range target {
-		sum += x * x
+		sum += float64(x) * float64(x)
 	}
-	norm := float32(math.Sqrt(float64(sum)))
 
 	// Zero vectors are undefined for cosine similarity
-	if norm == 0 {
+	if sum == 0 {
 		return nil, ErrZeroVector
 	}
 
 	// Create normalized copy
 	result := make([]float32, len(target))
-	scale := 1.0 / norm
+	scale := 1.0 / math.Sqrt(sum)
 	for i := range target {
-		result[i] = target[i] * scale
+		result[i] = float32(float64(target[i]) * scale)
 	}
 
 	return result, nil
